@@ -30,12 +30,16 @@ MANIFEST = {
             "retrieved object that stays alive is returned again by every later retrieval through the same instance, refreshed. "
             "Over ALL schedules of two threads that each retrieve or add the same identifier, advancing between the lock/cache "
             "yield points: every retrieval returns the one cached replica, refreshed (finite-state invariant, kernel-checked "
-            "closure of the reachable set); for the pinned protocol (cache insert after releasing the lock) the negation is proved "
-            "on a concrete schedule. Tie: differential run of model and real store on temp directories after every call, and an "
+            "closure of the reachable set), and an add() that returned normally leaves exactly the added object cached, bound and "
+            "returned by the other thread's retrieval (c14_added_object_stays_live); for the pinned protocol (cache insert after "
+            "releasing the lock) and for the protocol with the source bound after the `with` block the negation is proved on a "
+            "concrete schedule (the oracle's finer scheduler, with a yield point after every release, replays the latter against "
+            "the code). Tie: differential run of model and real store on temp directories after every call, and an "
             "instrumented lock/cache scheduler replaying every interleaving of two threads.",
     "note": "partial: real preemption inside CPython bytecodes and WeakValueDictionary finalisation are assumed to respect the "
             "modelled atomicity (GIL + lock; gc at explicit steps); sha256 injective; document content abstracted to a version "
-            "number (attribute equality after a JSON round trip is C03); all instances share one directory; objects whose "
+            "number in the histories (attribute equality: a separate rich-payload oracle over generated identifiables and the zoo "
+            "of XSD edge values, and C03); all instances share one directory; objects whose "
             "source was edited by the application are out of scope. The model follows the tree with fixes/C14-*.patch and "
             "fixes/C15-*.patch applied.",
     "technique": "Lean 4 proof: refinement of every operation to an abstract persistent map + identity invariant by induction over "
